@@ -60,6 +60,21 @@ Theorem C08_parent :
 Proof. exact parent_names_spawner. Qed.
 Print Assumptions C08_parent.
 
+(* a restarted actor keeps its children: a restart keeps process and Context, it
+   is not an event of the children-map machine; wherever restart markers stand
+   in a history, Children() and Parent() are what they are without them *)
+Theorem C08_restart_keeps_children :
+  forall (h1 : list hop) (n : nat) (h2 : list hop),
+    hist_fresh s_init (ops_of (h1 ++ h2)) ->
+    forall p, In p (s_alive (srun (ops_of (h1 ++ h2)))) ->
+      NoDup (children (hrun (h1 ++ HRestart n :: h2)) p) /\
+      (forall c, In c (children (hrun (h1 ++ HRestart n :: h2)) p) <->
+                 exists o1 o2, ops_of (h1 ++ h2) = o1 ++ BSpawnChild p c :: o2 /\
+                               ~ In (BStopped c) o2 /\ ~ In (BStopped p) o2) /\
+      parent (hrun (h1 ++ HRestart n :: h2)) p = parent (hrun (h1 ++ h2)) p.
+Proof. exact restart_keeps_children. Qed.
+Print Assumptions C08_restart_keeps_children.
+
 (* outside the premise: SpawnChild under an id that is taken records the
    incumbent in the caller's map; it is not the caller's child, and it stays
    listed after it has stopped *)
